@@ -212,10 +212,13 @@ def _getStepAndCycleLengths(cs):
                     f"No cycle time history is given in the detailed cycles history for cycle {cycleIdx}"
                 )
 
-        cycleLengths = [sum(cycleStepLengths) for cycleStepLengths in stepLengths]
         cycleLengths = [
-            cycleLength / aFactor
-            for (cycleLength, aFactor) in zip(cycleLengths, availabilityFactors)
+            cycle["cycle length"]
+            if "cycle length" in cycle.keys()
+            else sum(cycleStepLengths) / aFactor
+            for (cycle, cycleStepLengths, aFactor) in zip(
+                cs["cycles"], stepLengths, availabilityFactors
+            )
         ]
 
     else:
